@@ -162,9 +162,50 @@ def sweep_msgs():
     return reqs, resps
 
 
+def decoder_isolation(rep):
+    """an application registers vendor classes (a function code, sub-functions under 0x08 and 0x2B) on ITS decoder: every
+    other decoder of the process — the ones this harness decodes with, created earlier, and fresh ones — must go on decoding
+    the standard PDUs to the standard messages"""
+    from pymodbus.factory import ServerDecoder, ClientDecoder
+    from pymodbus.pdu import ModbusRequest, ModbusResponse
+
+    def vendor(base, fc, sub=None):
+        ns = {'function_code': fc, 'encode': lambda self: b'', 'decode': lambda self, data: None,
+              '__init__': lambda self, *a, **kw: base.__init__(self)}
+        if sub is not None:
+            ns['sub_function_code'] = sub
+        return type('Vendor%s_%02x_%s' % (base.__name__, fc, sub), (base,), ns)
+    keep = []
+    for dec_cls, base in ((ServerDecoder, ModbusRequest), (ClientDecoder, ModbusResponse)):
+        mine = dec_cls()
+        for fc, sub in ((0x08, 0x0000), (0x08, 0x000E), (0x2B, 0x0E), (0x03, None), (0x41, None)):
+            try:
+                mine.register(vendor(base, fc, sub))
+            except Exception as e:  # noqa
+                rep.notes.append('decoder_isolation: register(%#x, %s) raised %s' % (fc, sub, errkind(e)))
+        keep.append(mine)
+    probes = [('req', [8, 0, 0, 0xA5, 0x37], 'ReturnQueryDataRequest'), ('req', [3, 0, 1, 0, 2], 'ReadHoldingRegistersRequest'),
+              ('req', [0x2B, 0x0E, 1, 0], 'ReadDeviceInformationRequest'),
+              ('resp', [8, 0, 0, 0xA5, 0x37], 'ReturnQueryDataResponse'), ('resp', [3, 2, 0, 5], 'ReadHoldingRegistersResponse'),
+              ('resp', [8, 0, 0x0E, 0, 1], 'ReturnSlaveMessageCountResponse')]
+    for which, decs in (('created before the registration', (SD, CD)), ('created after the registration', (ServerDecoder(), ClientDecoder()))):
+        for d, pdu, want in probes:
+            dec = decs[0] if d == 'req' else decs[1]
+            try:
+                got = type(dec.decode(bytes(pdu))).__name__
+            except Exception as e:  # noqa
+                got = 'raised ' + errkind(e)
+            rep.case(('isolation', which, d, tuple(pdu)), nontrivial=True, tag='decoder-isolation')
+            if got != want:
+                rep.violation('registering vendor classes on one decoder changed what ANOTHER decoder (%s) makes of a standard PDU' % which,
+                              {'kind': 'decoder-isolation', 'dir': d, 'bytes': pdu}, got=got, expected=want)
+    return keep
+
+
 def run(ctx):
     rep = Report(RULE)
     rng = ctx.rng
+    _vendor_decoders = decoder_isolation(rep)      # kept alive: everything decoded below must not be affected either
     for c in ctx.corpus():
         check_batch(ctx, rep, c['dir'], [c['msg']], with_mutants=False)
     reqs, resps = sweep_msgs()
@@ -183,7 +224,9 @@ def run(ctx):
 def replay(ctx, payload):
     rep = Report(RULE)
     c = payload['case']
-    if c['kind'] == 'pdu':
+    if c['kind'] == 'decoder-isolation':
+        decoder_isolation(rep)
+    elif c['kind'] == 'pdu':
         check_batch(ctx, rep, c['dir'], [c['msg']], with_mutants=False)
     else:
         d = ctx.driver.query([{'op': 'codec', 'dir': 'dec_req' if c['dir'] == 'req' else 'dec_resp', 'bytes': c['bytes']}])[0]
